@@ -68,6 +68,18 @@ class Flow:
         # handler_from_entry: an except-handler is analysed as an alternative to the WHOLE try body
         # (the failure is assumed to happen before the body had any effect)
         self.handler_from_entry = handler_from_entry
+        if assume is not None:
+            _a = assume
+
+            def assume(t, _a=_a):  # an assumption about T is also one about `not T` (guard clauses: `if not T: return`)
+                neg = False
+                while isinstance(t, ast.UnaryOp) and isinstance(t.op, ast.Not):
+                    k = _a(t)
+                    if k is not None:
+                        return k != neg
+                    t, neg = t.operand, not neg
+                k = _a(t)
+                return None if k is None else (k != neg)
         self.assume = assume
         self.func = func
         self.events = events
